@@ -25,4 +25,6 @@ mkdir -p .cache
 ( cd harness/big_probe && cargo build --offline --target-dir ../../.cache/target-big && cargo build --offline --release --target-dir ../../.cache/target-big ) || echo "setup: big_probe build failed"
 [ -f harness/cycle_probe/Cargo.lock ] || cp /repo/Cargo.lock harness/cycle_probe/Cargo.lock
 ( cd harness/cycle_probe && cargo build --offline --release --target-dir ../../.cache/target-cycle && cargo build --offline --release --features wrapping_version --target-dir ../../.cache/target-cycle-wrap && RUSTFLAGS="--cfg gecs_verif" cargo build --offline --release --target-dir ../../.cache/target-cycle-hook ) || echo "setup: cycle_probe build failed"
+[ -f harness/api_probe/Cargo.lock ] || cp /repo/Cargo.lock harness/api_probe/Cargo.lock
+( cd harness/api_probe && cargo build --offline --target-dir ../../.cache/target-api && cargo build --offline --release --target-dir ../../.cache/target-api ) || echo "setup: api_probe build failed"
 echo "setup done"
